@@ -294,6 +294,53 @@ class RelativeThreshold(Harness):
         return ok
 
 
+class AbsoluteThreshold(Harness):
+    """refresh_before: {mtime: <file>} follows the file: every staleness decision uses the file's modification
+    time at that moment (stub: os.path.getmtime returns arbitrary instants per call); {time: <iso>} is constant."""
+    modules = ['mapproxy.util.times', 'mapproxy.seed.config', 'mapproxy.grid', 'mapproxy.cache.tile']
+    functions = ['before_timestamp_from_options', 'TileManager.expire_timestamp', 'TileManager.is_cached', 'TileManager.is_stale']
+
+    @classmethod
+    def build(cls, L, cfg):
+        return dict(t=L.mods['mapproxy.cache.tile'], G=common.make_grid(L.mods['mapproxy.grid'], 'merc_ll'))
+
+    @classmethod
+    def inputs(cls, ctx, cfg):
+        m1, m2, m3, ts = real_var('mtime1'), real_var('mtime2'), real_var('mtime3'), real_var('ts')
+        assume(AND(m1 >= 0, m2 >= 0, m3 >= 0, ts >= 0))
+        return dict(m1=m1, m2=m2, m3=m3, ts=ts)
+
+    @classmethod
+    def prop(cls, ctx, cfg, m1, m2, m3, ts):
+        import os as real_os
+        import types
+        t, G = ctx['t'], ctx['G']
+        mt = [m1, m2, m3]
+        calls = []
+
+        def getmtime(p):
+            calls.append(p)
+            return mt[min(len(calls) - 1, 2)]
+        ev = []
+        c = (1, 1, 2)
+        cache = tmstub.RecCache(ev, {c: True}, {c: ts})
+        mgr = t.TileManager(G, cache, [], 'png', tmstub.RecLocker(ev))
+        mgr._refresh_before = {'mtime': '/data/marker'}
+        import mapproxy.seed.config as real_sc
+        saved = real_sc.os
+        real_sc.os = types.SimpleNamespace(path=types.SimpleNamespace(getmtime=getmtime, abspath=real_os.path.abspath, join=real_os.path.join))
+        try:
+            th1 = mgr.expire_timestamp()
+            cached2 = mgr.is_cached(t.Tile(c))
+            stale3 = mgr.is_stale(t.Tile(c))
+        finally:
+            real_sc.os = saved
+        ok = AND(th1 == m1, len(calls) == 3)
+        ok = AND(ok, IMPLIES(ts >= m2 + 1, cached2), IMPLIES(ts + 1 <= m2, NOT(cached2)))
+        ok = AND(ok, IMPLIES(ts >= m3 + 1, NOT(stale3)), IMPLIES(ts + 1 <= m3, stale3))
+        return ok
+
+
 def real_mktime(x):
     import time
     return time.mktime(x)
@@ -322,6 +369,10 @@ CANARIES = [
         "            return before_timestamp_from_options(self._refresh_before)",
         "            if self._expire_timestamp is None:\n                self._expire_timestamp = before_timestamp_from_options(self._refresh_before)\n            return self._expire_timestamp")]},
      dict(delta={'hours': 4})),
+    ('file threshold computed once', 'AbsoluteThreshold', {'mapproxy.cache.tile': [(
+        "            return before_timestamp_from_options(self._refresh_before)",
+        "            if self._expire_timestamp is None:\n                self._expire_timestamp = before_timestamp_from_options(self._refresh_before)\n            return self._expire_timestamp")]},
+     {}),
 ]
 
 
@@ -336,12 +387,14 @@ def obligations(tier, seed):
     deltas = [{'hours': 4}, {'days': 1, 'minutes': 2}, {'weeks': 2}, {'seconds': 30}]
     for d in (deltas if tier == 'thorough' else deltas[:2]):
         specs.append(spec(MOD, 'RelativeThreshold', 'relative-threshold/%s' % '-'.join('%s%s' % kv for kv in d.items()), cfg=dict(delta=d)))
+    specs.append(spec(MOD, 'AbsoluteThreshold', 'mtime-threshold-follows-file', cfg={}))
     for via in ('store_tile', 'store_tiles'):
         specs.append(spec(MOD, 'StoreTimestamp', 'sqlite-store-records-now/%s' % via, cfg=dict(via=via)))
     for via in ('load_tile_metadata', 'load_tile'):
         specs.append(spec(MOD, 'FileTimestamp', 'file-tile-timestamp/%s' % via, cfg=dict(via=via)))
     specs.append(spec(MOD, 'Refresh', 'twin/Refresh', kind='witness', cfg=dict(meta=False, with_threshold=True)))
     specs.append(spec(MOD, 'RelativeThreshold', 'twin/RelativeThreshold', kind='witness', cfg=dict(delta={'hours': 4})))
+    specs.append(spec(MOD, 'AbsoluteThreshold', 'twin/AbsoluteThreshold', kind='witness', cfg={}))
     for label, h, patches, c in (CANARIES if tier == 'thorough' else CANARIES[:3] + CANARIES[4:]):   # (quick skips one)
         specs.append(spec(MOD, h, 'canary/' + label, kind='canary', cfg=c, patches=patches, cost=5))
     return specs
@@ -356,8 +409,9 @@ META = dict(
                 'and a store; a tile written >= 1 s after the threshold is served from the cache with no upstream request; '
                 'a failing refresh stores/removes nothing and serves the old tile; for a 2x2 meta tile: all fresh => no '
                 'request, any expired => exactly one request storing all four tiles; relative thresholds are re-evaluated '
-                'against the clock on every call (threshold = floor(now - delta)).',
-    functions=Refresh.functions + RelativeThreshold.functions + FileTimestamp.functions + StoreTimestamp.functions,
+                'against the clock on every call (threshold = floor(now - delta)); an mtime rule reads the marker file on every '
+                'decision (three successive decisions with three arbitrary modification times).',
+    functions=Refresh.functions + RelativeThreshold.functions + AbsoluteThreshold.functions + FileTimestamp.functions + StoreTimestamp.functions,
     bounds='timestamps >= 0, thresholds whole seconds >= 0; single tile and one 2x2 meta tile; one request; clock: two arbitrary '
            'non-decreasing instants',
     outside='the sub-second band ts in (T, T+1) (documented truncation, either behaviour accepted), mktime/strptime (C library; '
